@@ -158,7 +158,12 @@ def r_dispatch(chk, P, tier):
     # the ':' prefix is stripped: where the colon test holds, find_tz_file gets a tail of the string, not the string itself
     n = 0
     for p in Sym(P, fn).paths():
-        colon = [c for c in p.conds if c[2] != 0 and ("('char', 58)" in repr(c[1]) or "':'" in repr(c[1]))]
+        def holds(c):
+            v = c[2]
+            if c[1][0] == "discr":      # Option / Result discriminant: variant 1 is Some
+                return v == 1 or (isinstance(v, tuple) and v[0] == "else" and 1 not in v[1])
+            return (v != 0) if not isinstance(v, tuple) else (v[0] == "else" and 0 in v[1])
+        colon = [c for c in p.conds if ("('char', 58)" in repr(c[1]) or "':'" in repr(c[1])) and holds(c)]
         if not colon:
             continue
         for c in p.calls:
